@@ -34,7 +34,7 @@ func zzTopParams() string {
 // C04-N: for every schema type, every explored presence subset / alternative
 // / element count, the real encoder's output equals the X.690 reference.
 //
-//gosx:property=C04 tier=quick shards=16 p.allsubsets=5 p.allsubsets.thorough=9 p.pairs.thorough=1 p.tops.thorough=3 p.bigstrings.thorough=1
+//gosx:property=C04 tier=quick shards=16 p.allsubsets=5 p.allsubsets.thorough=9 p.pairs.thorough=1 p.tops.thorough=3 p.bigstrings.thorough=1 maxseconds.thorough=7200
 func ZZ_C04_Schema() {
 	t := zzPickType()
 	v := reflect.New(t)
@@ -56,7 +56,7 @@ func ZZ_C04_Schema() {
 
 // C05-N: decode(encode(v)) == v for the same space.
 //
-//gosx:property=C05 tier=quick shards=16 p.allsubsets=5 p.allsubsets.thorough=9 p.pairs.thorough=1 p.tops.thorough=3 p.bigstrings.thorough=1
+//gosx:property=C05 tier=quick shards=16 p.allsubsets=5 p.allsubsets.thorough=9 p.pairs.thorough=1 p.tops.thorough=3 p.bigstrings.thorough=1 maxseconds.thorough=7200
 func ZZ_C05_Schema() {
 	t := zzPickType()
 	v := reflect.New(t)
@@ -84,7 +84,7 @@ func ZZ_C05_Schema() {
 // C16-N (a): every byte string of up to maxlen bytes decoded into every schema
 // type: error or value, never a panic, no read beyond len (cap = len + 4).
 //
-//gosx:property=C16 tier=quick shards=16 strictcap unwind=48 p.maxlen=3 p.maxlen.thorough=6
+//gosx:property=C16 tier=quick shards=16 strictcap unwind=48 p.maxlen=3 p.maxlen.thorough=6 maxseconds.thorough=7200
 func ZZ_C16_SchemaRawBytes() {
 	t := zzPickType()
 	n := vx.Choice("len", vx.Param("maxlen", 4)+1)
@@ -99,7 +99,7 @@ func ZZ_C16_SchemaRawBytes() {
 // i.e. every over-long / truncated / mistyped variant one octet away) decoded
 // into the type it was produced from: error or value, never a panic.
 //
-//gosx:property=C16 tier=quick shards=16 strictcap unwind=48 p.shapes=1 p.shapes.thorough=2 p.maxpos=10 p.maxpos.thorough=0
+//gosx:property=C16 tier=quick shards=16 strictcap unwind=48 p.shapes=1 p.shapes.thorough=2 p.maxpos=10 p.maxpos.thorough=0 maxseconds.thorough=7200
 func ZZ_C16_SchemaCorruptedEncoding() {
 	t := zzPickType()
 	v := reflect.New(t)
